@@ -31,6 +31,9 @@ MENUS = {
     "apply": {"sum": ["v"], "apply": ["v"]},
     "two-same-name": {"sum": ["n1", "n2"], "mean": ["n2"], "min": ["n1"]},      # two DIFFERENT vectors that carry the same name
     "lshift-built": {"count": ["xl"], "sum": ["xl"], "max": ["xl"]},             # a value column produced by concatenation (<<)
+    # several columns under ONE function whose None sit at different rows, and a later-listed function over yet another column
+    "two-counts": {"count": ["v", "x2"], "sum": ["x2"]},
+    "count-stdev": {"count": ["v"], "stdev": ["x2"], "max": ["x1"]},
 }
 
 
@@ -235,7 +238,7 @@ def menus_for(nkeys, n, form, level="full"):
     if nkeys == 1:
         if form == "name":
             if n >= 4:
-                return [m for m in MENUS if m not in ("two-same-name", "lshift-built", "sum-mean-unnamed", "twice")]
+                return [m for m in MENUS if m not in ("two-same-name", "lshift-built", "sum-mean-unnamed", "twice", "count-stdev")]
             return list(MENUS)
         return ["all6", "two-unnamed", "apply"]
     return ["all6", "two-cols", "apply"] if form == "name" else ["all6"]
